@@ -29,7 +29,12 @@ impl FilterSpec {
             }
         };
         FilterSpec {
-            min_log_level: if r.bool() { Some(*r.pick(&[0u8, 1, 2, 3, 4, 5, 6, 7, 200])) } else { None },
+            min_log_level: if r.bool() {
+                let lit = crate::dict::num_below(r, 255).unwrap_or(0) as u8;
+                Some(*r.pick(&[0u8, 1, 2, 3, 4, 5, 6, 7, 200, lit]))
+            } else {
+                None
+            },
             app_ids: ids(r),
             ecu_ids: ids(r),
             context_ids: ids(r),
